@@ -345,7 +345,7 @@ LSS_MEMBERS = ("displayName", "description", "preferredName", "shortName", "defi
 def lss_len(doc, path) -> int:
     try:
         v = jget(doc, path)
-        return len(v) if isinstance(v, list) and all(isinstance(x, dict) and "language" in x for x in v if isinstance(x, dict)) else 99
+        return len(v) if isinstance(v, list) and all(isinstance(x, dict) and ("language" in x or "text" in x) for x in v if isinstance(x, dict)) else 99
     except Exception:
         return 99
 
